@@ -65,6 +65,24 @@ static const TSLanguage *dump(const char *id, const char *so, const char *fn, un
   printf("ac");
   for (unsigned i = 0; i <= max_action; i++) printf(" %u", (unsigned)l->parse_actions[i].entry.count);
   printf("\n");
+  // every reduce action: symbol, child count, and the production's own (not inherited) fields and aliases by child index
+  for (unsigned i = 0; i <= max_action;) {
+    unsigned c = l->parse_actions[i].entry.count;
+    for (unsigned j = 1; j <= c; j++) {
+      TSParseAction a = l->parse_actions[i + j].action;
+      if (a.type != TSParseActionTypeReduce) continue;
+      printf("red %u %u %u f", (unsigned)a.reduce.symbol, (unsigned)a.reduce.child_count, (unsigned)a.reduce.production_id);
+      const TSFieldMapEntry *fs, *fe;
+      ts_language_field_map(l, a.reduce.production_id, &fs, &fe);
+      for (const TSFieldMapEntry *e = fs; e && e < fe; e++)
+        if (!e->inherited) printf(" %u:%u", (unsigned)e->child_index, (unsigned)e->field_id);
+      printf(" a");
+      const TSSymbol *as = ts_language_alias_sequence(l, a.reduce.production_id);
+      for (unsigned k = 0; as && k < a.reduce.child_count; k++) if (as[k]) printf(" %u:%u", k, (unsigned)as[k]);
+      printf("\n");
+    }
+    i += c + 1;
+  }
   // real iterator for every state; two extra calls after the end must stay false
   for (unsigned s = 0; s < l->state_count; s++) {
     LookaheadIterator it = ts_language_lookaheads(l, (TSStateId)s);
